@@ -2,7 +2,8 @@
 The harness algorithm SUMw(b) = (sum b[i]*(i+1)) * 0x0101..01 mod 2^(8w), registered under the names the test programs use."""
 
 _W = {'SUMU8': (1, False), 'SUMU16': (2, False), 'SUMU32': (4, False), 'SUMU64': (8, False),
-      'SUMI8': (1, True), 'SUMI16': (2, True), 'SUMI32': (4, True), 'SUMI64': (8, True), 'CRC32': (4, False)}
+      'SUMI8': (1, True), 'SUMI16': (2, True), 'SUMI32': (4, True), 'SUMI64': (8, True), 'CRC32': (4, False),
+      'SumU32Mx': (4, False), 'sumu16lc': (2, False)}
 
 
 class _Sum:
